@@ -217,6 +217,161 @@ func runDo(d *DoComb, sc doScenario) (viol []string, incon string) {
 	return viol, incon
 }
 
+// runDoOverlap runs two calls of one derived Do at the same time. Function j of call c is id c*n+j; the 2n
+// functions finish in the given order (token passing). Each call is judged on its own: positional values, its
+// own error, and no return before its own functions have finished.
+func runDoOverlap(d *DoComb, masks [2]int, order []int, rendezvous bool, procs int, seed int64) (viol []string, incon string) {
+	runtime.GOMAXPROCS(procs)
+	atomic.StoreInt64(&yieldN, 0)
+	yieldSeed = uint64(seed)*0x9E3779B97F4A7C15 + 4242
+	n := d.N
+	turn := make([]chan struct{}, 2*n)
+	once := make([]sync.Once, 2*n)
+	for i := range turn {
+		turn[i] = make(chan struct{})
+	}
+	closeTurn := func(i int) { once[i].Do(func() { close(turn[i]) }) }
+	pos := make([]int, 2*n)
+	for p, id := range order {
+		pos[id] = p
+	}
+	lastOf := [2]int{-1, -1} // the function of each call that finishes last
+	for _, id := range order {
+		lastOf[id/n] = id
+	}
+	finishing := make([]int64, 2*n)
+	errs := make([]error, 2*n)
+	var returned [2]int32
+	var early [2]int32
+	var barriers [2]sync.WaitGroup
+	fss := [2][]func() (int, error){}
+	for c := 0; c < 2; c++ {
+		barriers[c].Add(n)
+		for j := 0; j < n; j++ {
+			c, j, id := c, j, c*n+j
+			if masks[c]&(1<<j) != 0 {
+				errs[id] = fmt.Errorf("failure of function %d of call %d", j, c)
+			}
+			fss[c] = append(fss[c], func() (int, error) {
+				r := rand.New(rand.NewSource(seed*97 + int64(id)))
+				if rendezvous {
+					barriers[c].Done()
+					barriers[c].Wait()
+				}
+				<-turn[id]
+				perturb(r)
+				if lastOf[c] == id {
+					for k := 0; k < 1500 && atomic.LoadInt32(&returned[c]) == 0; k++ {
+						runtime.Gosched()
+					}
+					if atomic.LoadInt32(&returned[c]) != 0 {
+						atomic.StoreInt32(&early[c], 1)
+					}
+				}
+				atomic.StoreInt64(&finishing[id], tick())
+				if pos[id]+1 < 2*n {
+					closeTurn(order[pos[id]+1])
+				}
+				if errs[id] != nil {
+					return 1000*(c+1) + 500 + j, errs[id]
+				}
+				return 1000*(c+1) + j, nil
+			})
+		}
+	}
+	var vals [2][]int
+	var rerr [2]error
+	var tRet [2]int64
+	done := make(chan string, 2)
+	for c := 0; c < 2; c++ {
+		c := c
+		go func() {
+			defer func() {
+				if e := recover(); e != nil {
+					done <- fmt.Sprintf("panic: %v", e)
+				}
+			}()
+			vals[c], rerr[c] = d.Run(fss[c])
+			atomic.StoreInt32(&returned[c], 1)
+			tRet[c] = tick()
+			done <- ""
+		}()
+	}
+	closeTurn(order[0])
+	for got := 0; got < 2; got++ {
+		select {
+		case p := <-done:
+			if p != "" {
+				for i := range turn {
+					closeTurn(i)
+				}
+				return []string{"panic: deriveDo panicked: " + p}, ""
+			}
+		case <-time.After(10 * time.Second):
+			a := derivedGoroutines()
+			time.Sleep(300 * time.Millisecond)
+			b := derivedGoroutines()
+			ida := map[string]bool{}
+			for _, g := range a {
+				ida[g.ID] = true
+			}
+			all := len(b) > 0
+			var st []string
+			for _, g := range b {
+				st = append(st, "goroutine "+g.ID+" ["+g.State+"]")
+				if !ida[g.ID] || !blockedState(g.State) {
+					all = false
+				}
+			}
+			for i := range turn {
+				closeTurn(i)
+			}
+			if all {
+				return []string{fmt.Sprintf("deadlock: two overlapping calls of deriveDo did not both return; goroutines in derived code: %v", st)}, ""
+			}
+			return nil, "watchdog fired but goroutines in derived code are runnable: " + strings.Join(st, ", ")
+		}
+	}
+	for c := 0; c < 2; c++ {
+		if atomic.LoadInt32(&early[c]) != 0 {
+			viol = append(viol, fmt.Sprintf("returned-early: call %d of deriveDo returned before its last function had returned", c))
+		}
+		if len(vals[c]) != n {
+			viol = append(viol, fmt.Sprintf("values: call %d got %d values for %d functions", c, len(vals[c]), n))
+			continue
+		}
+		failed := false
+		mine := false
+		for j := 0; j < n; j++ {
+			id := c*n + j
+			if f := atomic.LoadInt64(&finishing[id]); f == 0 || f > tRet[c] {
+				viol = append(viol, fmt.Sprintf("returned-early: call %d returned (t=%d) before its function %d finished (t=%d)", c, tRet[c], j, f))
+			}
+			want := 1000*(c+1) + j
+			if errs[id] != nil {
+				want += 500
+				failed = true
+				mine = mine || errs[id] == rerr[c]
+			}
+			if vals[c][j] != want {
+				viol = append(viol, fmt.Sprintf("values: call %d position %d holds %d, its function returned %d", c, j, vals[c][j], want))
+			}
+		}
+		if !failed && rerr[c] != nil {
+			viol = append(viol, fmt.Sprintf("error: all functions of call %d succeeded but its error is %v", c, rerr[c]))
+		}
+		if failed && !mine {
+			viol = append(viol, fmt.Sprintf("error: call %d (failing %b) returned the error %v, which none of its functions returned", c, masks[c], rerr[c]))
+		}
+	}
+	if q := quiesce(); strings.HasPrefix(q, "leak") {
+		viol = append(viol, "goroutine "+q+" after both calls of deriveDo returned")
+	} else if q == "inconclusive" {
+		incon = "goroutines in derived code did not settle"
+	}
+	return viol, incon
+}
+
 func doMain(c Config, emit func(*Rep)) {
 	yieldOn = os.Getenv("VERIF_YIELD") == "1"
 	yieldTrace = make([]int32, 1<<14)
@@ -270,8 +425,45 @@ func doMain(c Config, emit func(*Rep)) {
 				}
 			}
 		}
+		// two overlapping calls of the same derived Do from two goroutines (state shared between calls - a
+		// package-level channel, a reused buffer - is invisible to one call at a time)
+		novl := 0
+		for k := 0; k < reps*6 && stuck < 3; k++ {
+			rr := rand.New(rand.NewSource(c.Seed*7919 + int64(d.N*1000+k)))
+			masks := [2]int{rr.Intn(1 << d.N), rr.Intn(1 << d.N)}
+			switch k {
+			case 0:
+				masks = [2]int{1, 0}
+			case 1:
+				masks = [2]int{0, 1 << (d.N - 1)}
+			case 2:
+				masks = [2]int{0, 0}
+			}
+			procs := []int{1, 2, 4, 16}[k%4]
+			Progress(fmt.Sprintf("%s overlap k=%d masks=%v procs=%d", id, k, masks, procs))
+			viol, incon := runDoOverlap(d, masks, rr.Perm(2*d.N), k%2 == 1, procs, c.Seed*1000003+int64(k))
+			nscen++
+			novl++
+			if yieldOn {
+				sigs[traceSig()] = true
+			}
+			if incon != "" {
+				r.Res.Classes["inconclusive"]++
+				continue
+			}
+			if len(viol) > 0 {
+				for _, v := range viol {
+					if strings.HasPrefix(v, "deadlock") {
+						stuck++
+					}
+					r.Fail("overlap-"+strings.SplitN(v, ":", 2)[0], "%s\n two overlapping calls: failing masks %v, procs %d, k=%d", v, masks, procs, k)
+				}
+				continue
+			}
+			r.Ok(fmt.Sprintf("overlap/n=%d/failingA=%d/failingB=%d/rendezvous=%v", d.N, popcount(masks[0]), popcount(masks[1]), k%2 == 1))
+		}
 		runtime.GOMAXPROCS(runtime.NumCPU())
-		r.Res.Extra = map[string]any{"scenarios": nscen, "interleaving_signatures": len(sigs)}
+		r.Res.Extra = map[string]any{"scenarios": nscen, "overlapping_call_scenarios": novl, "interleaving_signatures": len(sigs)}
 		emit(r)
 	}
 	Progress("")
